@@ -354,11 +354,16 @@ def _trace_job(seeds):
             forms.append(f'={f}({txt})')
         p = repo.Probe(forms)
         tab = _S['tab']
+        # every second batch: ONE Executor for the whole sequence of blocks; a blank is then written as None (a cleared cell)
+        ses = p.session() if (seeds[0] // max(1, len(seeds))) % 2 else None
         for sd in seeds:
             rng = random.Random(sd)
             blk = [rng.choice(TKINDS) for _ in range(12)]
-            ov = [(0, i % 3, i // 3, kind_value(k, i, tab)) for i, k in enumerate(blk) if k != 'B']
-            res = p.eval(ov)
+            if ses is not None:
+                res = ses.eval([(0, i % 3, i // 3, kind_value(k, i, tab) if k != 'B' else None) for i, k in enumerate(blk)])
+            else:
+                ov = [(0, i % 3, i // 3, kind_value(k, i, tab)) for i, k in enumerate(blk) if k != 'B']
+                res = p.eval(ov)
             for (f, args), r, form in zip(specs, res, forms):
                 out.append(mk_event(blk, args, f, r, form))
         return out
